@@ -132,8 +132,21 @@ def base_view(case, cfg):
     train/dev tables keyed by label, per-row base label"""
     from rtc.zoo import make_discretizer
     disc = make_discretizer(case, cfg['min_freq'])
-    xb = disc.fit_transform(case['X'], case['y'])
-    xbd = disc.transform(case['X_dev']) if case['X_dev'] is not None else None
+    disc.fit(case['X'], case['y'])
+    # base modality of every row, read off the fitted orders row by row (NOT through Discretizer.transform, so that the oracle does not inherit its row alignment)
+    from rtc import objects as ob
+    def base_rows(X):
+        out = {}
+        for f in disc.features:
+            lab = disc.labels_per_values[f]; col = []
+            for v in X[f].tolist():
+                g = ob.group_of(disc, f, v)
+                if g is None: raise AssertionError('value %r of %s has no base modality' % (v, f))
+                col.append(lab[g])
+            out[f] = pd.Series(col, dtype=object)
+        return out
+    xb = base_rows(case['X'])
+    xbd = base_rows(case['X_dev']) if case['X_dev'] is not None else None
     out = {}
     for f in disc.features:
         leaders = list(disc.values_orders[f]); lab = disc.labels_per_values[f]
